@@ -54,3 +54,9 @@ claim("C16", "whole-program lock-region / effect analysis over E-form MIR (exact
       "value (Drop terminators, mem::drop, clearing container calls) while any foyer lock class may be held (11 one-construct allow-list entries "
       "with the co-owner, 3 structural refinements), acyclic acquired-while-holding graph (1 hierarchical exception), no synchronous guard across "
       "an await. Foreign dyn callbacks and opaque fetch-closure destructors are reported as observations.", "DESIGN.md §4 C16")
+claim("C03", "MIR dominance / control-dependence rules, comparison tables, enum switch tables, argument provenance",
+      "Decides that the range test and (when requested) the checksum comparison dominate value/key decoding and the unequal edge returns "
+      "ChecksumMismatch; that the block engine unconditionally passes Some(header.checksum), lengths and tag of the header it read from the same "
+      "buffer; that a header needs matching magic and a valid tag (tag tables inverse, others rejected); that the blob index is used only after "
+      "its checksum matched; that each corruption error kind maps to `remove index entry + miss`; the recover-mode table; the key guard. "
+      "Panic-freedom under arbitrary bytes is not decided.", "DESIGN.md §4 C03")
